@@ -1,6 +1,6 @@
 (* C19 - LCU sampling tables and cost arithmetic are exact. *)
 From Coq Require Import ZArith List Bool.
-From OFV Require Import Model.LCU Thm.C19.Alias.
+From OFV Require Import Model.LCU Thm.C19.Alias Thm.C19.AliasF.
 Import ListNotations.
 (* [B] complete enumeration: every weight list of length n <= 5 with sum n*t, t <= 5: the modelled
    two-pass alias construction terminates inside the list and returns an exact table *)
@@ -10,3 +10,12 @@ Proof. exact alias_tables_exact_5_5. Qed.
 Print Assumptions C19_alias_tables_exact_5_5.
 Example C19_alias_example : roulette [5; 0; 1; 6]%Z = Some ([3; 0; 3; 3]%Z, [2; 0; 1; 0]%Z) /\ alias_ok [5; 0; 1; 6]%Z [3; 0; 3; 3]%Z [2; 0; 1; 0]%Z = true.
 Proof. split; vm_compute; reflexivity. Qed.
+
+(* [F] EVERY non-empty list of non-negative integer weights whose sum is n * t: the modelled two-pass
+   construction never runs its donor pointer past the end (the result is Some), and the returned table is
+   exact: 0 <= keep_i <= t, 0 <= alt_i < n, w_i = keep_i + sum_{j : alt_j = i} (t - keep_j) *)
+Theorem C19_alias_table_exact : forall (w : list Z) (t : Z),
+  w <> [] -> (forall x, In x w -> (0 <= x)%Z) -> fold_left Z.add w 0%Z = (Z.of_nat (length w) * t)%Z ->
+  exists alt keep, roulette w = Some (alt, keep) /\ alias_ok w alt keep = true.
+Proof. exact roulette_exact. Qed.
+Print Assumptions C19_alias_table_exact.
